@@ -154,6 +154,17 @@ def scenarios(tier, seed):
         if tier == "thorough":
             for b in range(a, stream_len + 1, 5):
                 yield ("in", plain_small, [7, 13], [a, b], None)
+    # frames of >= 256 plaintext bytes: every cut (and every pair of cuts) within a few bytes of a frame boundary
+    big = bytes(rnd.getrandbits(8) for _ in range(300 + 1024 + 256))
+    sizes_big = [300, 1024, 256]
+    bounds = [0, 2 + 300 + 16, 2 + 300 + 16 + 2 + 1024 + 16, 2 + 300 + 16 + 2 + 1024 + 16 + 2 + 256 + 16]
+    near = sorted({b + d for b in bounds for d in range(-3, 5) if 0 <= b + d <= bounds[-1]})
+    for a in near:
+        yield ("in", big, sizes_big, [a], None)
+    step = 1 if tier == "thorough" else 2
+    for ia in range(0, len(near), step):
+        for ib in range(ia + 1, len(near), step):
+            yield ("in", big, sizes_big, [near[ia], near[ib]], None)
     for _ in range(10 if tier == "quick" else 80):
         n = rnd.randint(1, 4000)
         plain = bytes(rnd.getrandbits(8) for _ in range(n))
